@@ -74,6 +74,19 @@ def run(ctx):
             if rng.random() < 0.3 and c > r:       # plant the query
                 k = rng.randrange(c - r + 1)
                 s[k:k + r] = [v + rng.choice([0, 0.01]) for v in q]
+        if not nd and not long_case and it % 12 == 5:
+            # several occurrences of the query that differ only very slightly in quality (relative 1e-9 .. 1e-7), the better
+            # ones later in the series: the iterator must still hand them out best-first
+            r = rng.randint(2, 4)
+            q = [0.0] + [rng.choice([1000.0, 500.0, 250.0]) for _ in range(r - 2)] + [0.0] if r > 2 else [0.0, 1000.0]
+            base_ = rng.choice([300.0, 120.0])
+            ncp = rng.randint(2, 4)
+            offs_ = sorted([rng.choice([0.9e-5, 1.8e-5, 2.7e-5, 3.6e-5, 0.0]) for _ in range(ncp)], reverse=True)
+            s = [9000.0] * rng.randint(2, 4)
+            for e_ in offs_:
+                s += [q[0] + base_ + e_] + [v_ + base_ for v_ in q[1:]] + [9000.0] * rng.randint(2, 4)
+            c = len(s)
+            ctx.count("near_tie_occurrence_cases")
         penalty = rng.choice([0, 0.1, 0.5, 1.0])
         qa, sa_ = np.array(q, dtype=float), np.array(s, dtype=float)
         # the same numeric content in non-contiguous views (C20: results must not depend on the layout)
